@@ -95,6 +95,7 @@ theorem recvItems_fail_code (cfg : CCfg) (enc : Option Compressor) :
     | webTrailer b => simp only [recvItems] at h; split at h <;> cases h; exact codes_nonzero.1
     | raw d => simp only [recvItems] at h; cases h; exact codes_nonzero.1
     | errorJSON w => simp only [recvItems] at h; cases h; exact codes_nonzero.1
+    | errorJSONz w => simp only [recvItems] at h; cases h; exact codes_nonzero.1
 
 theorem connectStream_code (cfg : CCfg) (r : Resp) (e : CErr)
     (h : (clientConnectStream cfg r).result = some e) : e.code ≠ 0 := by
@@ -129,6 +130,9 @@ theorem connectUnary_code (cfg : CCfg) (st : Bytes) (r : Resp) (e : CErr)
   · split at h
     · split at h
       · simp only [Option.some.injEq] at h; subst h; exact fixCode_ne_zero _ _ (connectHTTPToCode_ne_zero _)
+      · split at h
+        · simp only [Option.some.injEq] at h; subst h; exact fixCode_ne_zero _ _ (connectHTTPToCode_ne_zero _)
+        · simp only [Option.some.injEq] at h; subst h; exact connectHTTPToCode_ne_zero _
       · simp only [Option.some.injEq] at h; subst h; exact connectHTTPToCode_ne_zero _
     · split at h
       · split at h
@@ -314,10 +318,13 @@ theorem non200_code_from_status_grpc (dec : Bytes → Option WireErr) (cfg : CCf
 
 theorem non200_code_from_status_unary (cfg : CCfg) (st : Bytes) (r : Resp) (hs : r.status ≠ 200)
     (henc : encodingKnown cfg (r.header.get Gen.hdrConnectUnaryEncoding) = true)
-    (hbody : ∀ w, r.body ≠ [.errorJSON w]) :
+    (hbody : ∀ w, r.body ≠ [.errorJSON w] ∧ r.body ≠ [.errorJSONz w]) :
     ∃ e, (clientConnectUnary cfg st r).result = some e ∧ e.code = connectHTTPToCode r.status := by
   simp only [clientConnectUnary, henc, Bool.not_true, Bool.false_eq_true, if_false, hs, ne_eq, not_false_eq_true, if_true]
-  exact ⟨_, rfl, rfl⟩
+  split
+  · rename_i w hw; exact absurd hw (hbody w).1
+  · rename_i w hw; exact absurd hw (hbody w).2
+  · exact ⟨_, rfl, rfl⟩
 
 /-- **unary body without code**: a unary Connect error body whose code is missing or zero takes
     its code from the HTTP status (fix f212b2f) -/
